@@ -30,13 +30,19 @@ Section VarQ.
   Variables two half tol nexpp iexpp nm1 inm1 : Q.
   Variable abs : Q -> Q.
   Variable pow : Q -> Q -> Q.
+  (* the division is an ARBITRARY function in these theorems: they do not lean on Q's total division (x/0 = 0).
+     Before /repo commit c8cdcf67 the rational instance of PolynomialMutator evaluated 0/0 = 0 on a degenerate
+     coordinate and the clipping made the statement true, while the C++ produced 0/0 = NaN, which the clipping does
+     not catch: the Q-model hid the defect.  The repaired code (and this model) takes an explicit branch there
+     (pm_degenerate_coordinate_unchanged), and tools/c14.py checks finiteness on the C++ output independently. *)
+  Variable dv : Q -> Q -> Q.
 
   Notation smaxq := (smax Q qltb).
   Notation sminq := (smin Q qltb).
-  Notation sbxc := (sbx_coord Q 0%Q 1%Q two half tol Qplus Qminus Qmult Qdiv abs pow qltb nexpp iexpp).
-  Notation sbxq := (sbx Q 0%Q 1%Q two half tol Qplus Qminus Qmult Qdiv abs pow qltb nexpp iexpp).
-  Notation pmc := (pm_coord Q 0%Q 1%Q two half Qplus Qminus Qmult Qdiv pow qltb nm1 inm1).
-  Notation pmq := (pm Q 0%Q 1%Q two half Qplus Qminus Qmult Qdiv pow qltb nm1 inm1).
+  Notation sbxc := (sbx_coord Q 0%Q 1%Q two half tol Qplus Qminus Qmult dv abs pow qltb nexpp iexpp).
+  Notation sbxq := (sbx Q 0%Q 1%Q two half tol Qplus Qminus Qmult dv abs pow qltb nexpp iexpp).
+  Notation pmc := (pm_coord Q 0%Q 1%Q two half Qplus Qminus Qmult dv pow qltb nm1 inm1 Qeq_bool).
+  Notation pmq := (pm Q 0%Q 1%Q two half Qplus Qminus Qmult dv pow qltb nm1 inm1 Qeq_bool).
 
   Lemma clip_in (lo hi p : Q) : (lo <= hi)%Q -> (lo <= sminq (smaxq p lo) hi)%Q /\ (sminq (smaxq p lo) hi <= hi)%Q.
   Proof.
@@ -103,7 +109,8 @@ Section VarQ.
     intros H Hx. unfold pm_coord, draw. cbn [fst snd].
     destruct (qltb (hd 0%Q us) prob); [|cbn [fst]; auto].
     destruct (qltb x lo) eqn:C1; [apply qltb_true in C1; lra|].
-    destruct (qltb hi x) eqn:C2; [apply qltb_true in C2; lra|]. cbn [orb fst].
+    destruct (qltb hi x) eqn:C2; [apply qltb_true in C2; lra|]. cbn [orb].
+    destruct (Qeq_bool hi lo); [cbn [fst]; auto|]. cbn [fst].
     match goal with |- context [if qltb ?y lo then lo else ?y] => set (yy := y) end.
     destruct (qltb yy lo) eqn:D1.
     - destruct (qltb hi lo) eqn:D2; [apply qltb_true in D2; lra|]. lra.
@@ -118,11 +125,34 @@ Section VarQ.
     intros H HC HU. unfold pm_coord, draw. cbn [fst snd]. rewrite HC.
     destruct (qltb x lo || qltb hi x) eqn:OUT.
     - cbn [fst]. unfold uni. set (u := hd 0%Q (tl us)) in *. nra.
-    - cbn [fst].
+    - apply orb_false_iff in OUT. destruct OUT as [O1 O2]. apply qltb_false in O1, O2.
+      destruct (Qeq_bool hi lo); [cbn [fst]; lra|]. cbn [fst].
       match goal with |- context [if qltb ?y lo then lo else ?y] => set (yy := y) end.
       destruct (qltb yy lo) eqn:D1.
       + destruct (qltb hi lo) eqn:D2; [apply qltb_true in D2; lra|]. lra.
       + apply qltb_false in D1. destruct (qltb hi yy) eqn:D2; [lra|]. apply qltb_false in D2. lra.
+  Qed.
+
+  (* the explicit branch of the repaired code: a coordinate with upper == lower that is in range keeps its value and
+     consumes exactly the one draw of the coin toss -- no quotient by the width is formed *)
+  Theorem pm_degenerate_coordinate_unchanged prob lo hi x us : (lo == hi)%Q -> (lo <= x <= hi)%Q ->
+    pmc prob lo hi x us = (x, tl us).
+  Proof.
+    intros E Hx. unfold pm_coord, draw. cbn [fst snd].
+    destruct (qltb (hd 0%Q us) prob); [|reflexivity].
+    destruct (qltb x lo) eqn:C1; [apply qltb_true in C1; lra|].
+    destruct (qltb hi x) eqn:C2; [apply qltb_true in C2; lra|]. cbn [orb].
+    assert (EB : Qeq_bool hi lo = true) by (apply Qeq_eq_bool; lra). now rewrite EB.
+  Qed.
+
+  (* whenever the mutation formulas (the only place that divides) are evaluated, the width is not zero *)
+  Theorem pm_formula_branch_has_positive_width prob lo hi x us : (lo <= hi)%Q ->
+    qltb (hd 0%Q us) prob = true -> (qltb x lo || qltb hi x) = false ->
+    snd (pmc prob lo hi x us) <> tl us -> (0 < hi - lo)%Q.
+  Proof.
+    intros H HC OUT. unfold pm_coord, draw. cbn [fst snd]. rewrite HC, OUT.
+    destruct (Qeq_bool hi lo) eqn:EB; [cbn [snd]; congruence|]. intros _.
+    apply Qeq_bool_neq in EB. lra.
   Qed.
 
   Theorem pm_in_box prob : forall lower upper p us,
